@@ -6,11 +6,17 @@ S: TLC checks spec/EqRelImpl.tla (union-find forest with path halving and the ra
    (PROPERTY Refines) - which pins the reading of extendAndInsert.
 R: TLC's state graph is dumped; walks covering every transition are replayed on the real EquivalenceRelation<Tuple<RamDomain,2>>
    and dense order, parent/rank arrays, stale flag, cached partition and the call's result are compared after every call
-   (deviation = MODEL-DRIFT).  The same walks are run again with the whole query battery after every updating call.
-T: API histories of real executions - the replayed walks, seeded random sequential histories over 1-3 relations with values at both
-   ends of the 32-bit domain, and concurrent insert phases (1-8 threads; cooperative scheduler with seeded random, directed and
-   preemption-bounded schedules; real-thread stress) followed by the battery (contains, size, full / per-element / per-pair
-   iteration, closure, partition) - are validated by TLC against the property-level spec/EqRelAbs.tla."""
+   (deviation = MODEL-DRIFT).  Part of the walks run again with the whole query battery after every updating call.
+T: API histories of real executions are validated by TLC against the property-level spec/EqRelAbs.tla:
+   - the replayed walks;
+   - "staleness": for every pair of partitions of subsets of {MIN,0,MAX} (thorough: {MIN,-1,0,MAX}) as contents of two relations:
+     build, READ both (size / iteration / partition / per-element range, rotating - the read freshens the cached partition lists),
+     one merging call (insertAll, extendAndInsert, insert), then the battery on both relations;
+   - seeded random sequential histories over 1-3 relations with values at both ends of the 32-bit domain;
+   - concurrent insert phases (1-8 threads; cooperative scheduler with seeded random, directed and deviation-bounded schedules;
+     real-thread stress) followed by the battery.
+   The battery = contains, size, full / per-element / per-pair iteration, closure, partition; the order of its reads rotates so
+   that every kind of read is in some history the first one after an update."""
 import os, subprocess, random, re, json, time
 from .. import build, tlc, graphwalk, tracecheck, known, tlaval
 from ..common import workdir, seed, Result, SPEC, HARNESS, BUILD
